@@ -16,6 +16,16 @@
 //     sen.Writer.appendSEN names no type of package gen before its `case alt.Simplifier:` clause and
 //     that clause is `wr.appendJSON(td.Simplify(), depth)` (resp. appendSEN): a generic node is written
 //     by writing its Simplify() result.
+//   - containerArms: for every conversion function and each of its two container arms (the `[]any` /
+//     `map[string]any` clause of the type switch of Generify, GenAlter, decompose, alter; the bodies of
+//     the methods Simplify, Alter, Dup of gen.Array and gen.Object) two syntactic facts: does the arm
+//     BUILD a container (a call of `make` or a composite literal of a slice/map type), and does it
+//     WRITE INTO ITS ARGUMENT (a cast through unsafe.Pointer, or an assignment `v[i] = …` whose base
+//     is the switch variable / the receiver). Props/C18.lean proves that this classification equals
+//     the model's `Kind.inPlace` table.
+//
+// These facts are regression tripwires over the lines the model (and the two C18 fixes) depend on,
+// not a translation of the functions: the tie of the model as a whole is the correspondence run.
 //
 // Fails loudly on a source shape it cannot read.
 package main
@@ -307,6 +317,111 @@ func convWriterViaSimplify(f *ast.File, rel, fn string) (bool, error) {
 	return false, nil
 }
 
+// convArmFacts classifies a list of statements: builds = a `make` call or a slice/map composite
+// literal occurs; writes = an unsafe.Pointer cast occurs or an element of `base` is assigned.
+func convArmFacts(stmts []ast.Stmt, base string) (builds, writes bool) {
+	for _, st := range stmts {
+		ast.Inspect(st, func(n ast.Node) bool {
+			switch x := n.(type) {
+			case *ast.CallExpr:
+				if id, ok := x.Fun.(*ast.Ident); ok && id.Name == "make" {
+					builds = true
+				}
+			case *ast.CompositeLit:
+				switch convTypeText(x.Type) {
+				case "gen.Object", "Object", "gen.Array", "Array", "map[string]any", "[]any":
+					builds = true
+				}
+			case *ast.SelectorExpr:
+				if convTypeText(x) == "unsafe.Pointer" {
+					writes = true
+				}
+			case *ast.AssignStmt:
+				for _, l := range x.Lhs {
+					if ix, ok := l.(*ast.IndexExpr); ok {
+						if id, ok := ix.X.(*ast.Ident); ok && id.Name == base {
+							writes = true
+						}
+					}
+				}
+			}
+			return true
+		})
+	}
+	return
+}
+
+type convArm struct {
+	fn, arm        string
+	builds, writes bool
+}
+
+// convSwitchArms reads the `[]any` and `map[string]any` clauses of the type switch of function fn.
+func convSwitchArms(f *ast.File, rel, fn string) ([]convArm, error) {
+	var fd *ast.FuncDecl
+	for _, d := range f.Decls {
+		if x, ok := d.(*ast.FuncDecl); ok && x.Recv == nil && x.Name.Name == fn {
+			fd = x
+		}
+	}
+	if fd == nil || fd.Body == nil {
+		return nil, fmt.Errorf("%s: func %s not found", rel, fn)
+	}
+	var ts *ast.TypeSwitchStmt
+	ast.Inspect(fd.Body, func(n ast.Node) bool {
+		if x, ok := n.(*ast.TypeSwitchStmt); ok && ts == nil {
+			ts = x
+			return false
+		}
+		return true
+	})
+	if ts == nil {
+		return nil, fmt.Errorf("%s: %s has no type switch", rel, fn)
+	}
+	as, ok := ts.Assign.(*ast.AssignStmt)
+	if !ok || len(as.Lhs) != 1 {
+		return nil, fmt.Errorf("%s: %s: the type switch binds no variable", rel, fn)
+	}
+	base := as.Lhs[0].(*ast.Ident).Name
+	var out []convArm
+	for _, want := range []string{"[]any", "map[string]any"} {
+		found := false
+		for _, st := range ts.Body.List {
+			cc := st.(*ast.CaseClause)
+			for _, tx := range cc.List {
+				if convTypeText(tx) == want {
+					if len(cc.List) != 1 {
+						return nil, fmt.Errorf("%s: %s: the %s clause lists other types too", rel, fn, want)
+					}
+					b, w := convArmFacts(cc.Body, base)
+					out = append(out, convArm{fn, want, b, w})
+					found = true
+				}
+			}
+		}
+		if !found {
+			return nil, fmt.Errorf("%s: %s: no %s clause", rel, fn, want)
+		}
+	}
+	return out, nil
+}
+
+// convMethodArm reads the body of method `(n recv) name()`.
+func convMethodArm(f *ast.File, rel, recv, name string) (convArm, error) {
+	for _, d := range f.Decls {
+		x, ok := d.(*ast.FuncDecl)
+		if !ok || x.Recv == nil || x.Name.Name != name || x.Body == nil || len(x.Recv.List) != 1 {
+			continue
+		}
+		if convTypeText(x.Recv.List[0].Type) != recv || len(x.Recv.List[0].Names) != 1 {
+			continue
+		}
+		b, w := convArmFacts(x.Body.List, x.Recv.List[0].Names[0].Name)
+		return convArm{recv + "." + name, recv, b, w}, nil
+	}
+	return convArm{}, fmt.Errorf("%s: method %s.%s not found", rel, recv, name)
+}
+
 func extractConv(repo, out string) ([]string, error) {
 	fset := token.NewFileSet()
 	parse := func(rel string) (*ast.File, error) {
@@ -361,6 +476,46 @@ func extractConv(repo, out string) ([]string, error) {
 		}
 		fmt.Fprintf(&b, "/-- %s, %s: a generic node is written as its Simplify() result -/\ndef %s : Bool := %v\n\n", w.rel, w.fn, w.name, v)
 	}
+	var arms []convArm
+	decF, err := parse("alt/decompose.go")
+	if err != nil {
+		return nil, err
+	}
+	for _, x := range []struct {
+		f   *ast.File
+		rel string
+		fn  string
+	}{{genF, "alt/generifier.go", "Generify"}, {genF, "alt/generifier.go", "GenAlter"},
+		{decF, "alt/decompose.go", "decompose"}, {decF, "alt/decompose.go", "alter"}} {
+		as, err := convSwitchArms(x.f, x.rel, x.fn)
+		if err != nil {
+			return nil, err
+		}
+		arms = append(arms, as...)
+	}
+	for _, x := range []struct{ rel, recv string }{{"gen/array.go", "Array"}, {"gen/object.go", "Object"}} {
+		mf, err := parse(x.rel)
+		if err != nil {
+			return nil, err
+		}
+		for _, m := range []string{"Simplify", "Alter", "Dup"} {
+			a, err := convMethodArm(mf, x.rel, x.recv, m)
+			if err != nil {
+				return nil, err
+			}
+			arms = append(arms, a)
+		}
+	}
+	b.WriteString("/-- (function, container arm, builds a container: `make` / composite literal, writes into its\nargument: unsafe.Pointer cast / `v[i] = …` on the switch variable or receiver) -/\n")
+	b.WriteString("def containerArms : List (String × String × Bool × Bool) := [\n")
+	for i, a := range arms {
+		sep := ","
+		if i == len(arms)-1 {
+			sep = ""
+		}
+		fmt.Fprintf(&b, "  (%q, %q, %v, %v)%s\n", a.fn, a.arm, a.builds, a.writes, sep)
+	}
+	b.WriteString("]\n\n")
 	b.WriteString("end OjgVerif.Gen.Conv\n")
 	ch, err := writeIfChanged(filepath.Join(out, "Conv.lean"), b.String())
 	if err != nil {
